@@ -255,3 +255,32 @@ func itoa(n int) string {
 	}
 	return string(b)
 }
+
+func init() {
+	setups["C05"] = func(it *Item) any { return setupHist(it) }
+	runs["C05"] = func(c any, it *Item) { runC05(c.(*histCtx), it) }
+}
+
+// C05: the work of one search (executed basic blocks of library code, counted
+// by the executor) is recorded per path; the orchestrator compares the maxima
+// over all inputs of length L and 2L.
+func runC05(c *histCtx, it *Item) {
+	h := haystack(it, &c.set)
+	w0 := verif.Work()
+	switch it.API {
+	case "Match":
+		_ = c.re.Match(h)
+	case "FindIndex":
+		_ = c.re.FindIndex(h)
+	case "FindSubmatchIndex":
+		_ = c.re.FindSubmatchIndex(h)
+	case "pike":
+		_, _, _ = nfa.NewPikeVM(c.n).Search(h)
+	default:
+		panic("C05: unknown API " + it.API)
+	}
+	w := verif.Work() - w0
+	verif.SnapInt("len", len(h))
+	_ = w
+	verif.Reach("match")
+}
